@@ -254,6 +254,29 @@ static Program generate(uint64_t seed) {
     case 3: p.start_ms = 64000L * 65536 * 2 - (long)r.below(200000); break;
     default: p.start_ms = 1000 + (long)r.below(300000); break;
   }
+  if (r.below(6) == 0) {
+    // directed family: gc() is descheduled between its clock read and its CAS on the head while another thread
+    // grows the vector (retire lands in the window) and a third one holds a snapshot of the superseded table
+    if (p.start_ms < 129000) p.start_ms += 129000;       // an empty head (stamp 0) is judged expired
+    p.th.resize(4 + (int)r.below(2));
+    long first = (long)r.below(2 * bs);
+    bool pre = r.below(3) != 0;
+    if (pre) p.th[0].push_back(Op {ENSURE, first});      // one old entry in the retire list, a table to snapshot
+    p.th[0].push_back(Op {JOIN});
+    long wait = pre ? 129000 + (long)r.below(80000) : (long)r.below(3) * 500;   // old enough to expire
+    long park = 1 + (long)r.below(3000);
+    long land = (long)r.below(park);
+    p.th[1] = {Op {SLEEP, std::max(1L, wait)}, Op {STALL, 1, park}, Op {GC}};
+    if (r.below(2)) p.th[1].push_back(Op {GC});
+    long grow = (pre ? (first / bs + 1) * bs : 0) + (long)r.below(2 * bs);
+    p.th[2] = {Op {SLEEP, std::max(1L, wait + land)}, Op {ENSURE, grow}};
+    if (r.below(2)) p.th[2].push_back(Op {ENSURE, grow + bs + (long)r.below(bs)});
+    p.th[3] = {Op {SLEEP, std::max(1L, wait > 300 ? wait - 300 : 1)}, Op {SNAP}, Op {SLEEP, park + 500 + (long)r.below(2000)}};
+    if (pre) p.th[3].push_back(Op {USE, first});
+    p.th[3].push_back(Op {GC});
+    if (p.th.size() > 4) p.th[4] = {Op {SLEEP, std::max(1L, wait + (long)r.below(park + 1))}, Op {RESERVE, grow + 2 * bs}, Op {GC}};
+    return p;
+  }
   int nth = 2 + (int)r.below(3);
   p.th.resize(nth + 1);
   long maxidx = bs * (3 + (long)r.below(4));
